@@ -295,27 +295,34 @@ def blockCommentEndOrEof (k : BlockCommentKind) (trim : Nat) (l : Bytes) : Nat :
   | some e => e
   | none => l.length - trim
 
+/-- shift a scan result by the `n` bytes consumed before it -/
+def shiftEnd (n : Nat) : Option (Option Nat) → Option (Option Nat)
+  | none => none
+  | some none => some none
+  | some (some e) => some (some (n + e))
+
+/-- `{$if …}` / `{$elseif …}`: the directives whose body is an expression that may nest comments -/
+def isExprDirective : Option ConditionalDirectiveKind → Bool
+  | some .dIf => true
+  | some .dElseif => true
+  | _ => false
+
 /-- Result of the directive-expression scan: `none` = out of fuel (never happens with the fuel
-    supplied by `compilerDirective`, see `Proofs/LexerTotal`), `some none` = Rust's `None`,
+    supplied by `compilerDirective`, see `Proofs/LexBounds`), `some none` = Rust's `None`,
     `some (some n)` = end offset relative to `l`. -/
 def findDirectiveExprEnd (trim : Nat) : Nat → BlockCommentKind → Bytes → Option (Option Nat)
   | 0, _, _ => none
   | fuel + 1, kind, l =>
     -- continue the loop after consuming `n` bytes
     let continueAt (n : Nat) : Option (Option Nat) :=
-      match findDirectiveExprEnd trim fuel kind (l.drop n) with
-      | none => none
-      | some none => some none
-      | some (some e) => some (some (n + e))
+      shiftEnd n (findDirectiveExprEnd trim fuel kind (l.drop n))
     -- a nested `{$…}` / `(*$…*)` directive whose name starts at `r`, `skip` bytes into `l`
     let nested (skip : Nat) (k2 : BlockCommentKind) (r : Bytes) : Option (Option Nat) :=
-      let (nameLen, cdk) := conditionalDirectiveType r
+      let nameLen := (conditionalDirectiveType r).1
       let r' := r.drop nameLen
       let inner : Option (Option Nat) :=
-        match cdk with
-        | some .dIf => findDirectiveExprEnd trim fuel k2 r'
-        | some .dElseif => findDirectiveExprEnd trim fuel k2 r'
-        | _ => some (findBlockCommentEnd k2 r')
+        if isExprDirective (conditionalDirectiveType r).2 then findDirectiveExprEnd trim fuel k2 r'
+        else some (findBlockCommentEnd k2 r')
       match inner with
       | none => none
       | some none => some none
@@ -342,17 +349,11 @@ def findDirectiveExprEnd (trim : Nat) : Nat → BlockCommentKind → Bytes → O
 /-- `parse_directive_expr`; `l` starts at the directive name (after `{$` / `(*$`). -/
 def parseDirectiveExpr (trim : Nat) (fuel : Nat) (kind : BlockCommentKind) (l : Bytes) :
     Option ConditionalDirectiveKind × Option (Option Nat) :=
-  let (nameLen, cdk) := conditionalDirectiveType l
+  let nameLen := (conditionalDirectiveType l).1
+  let cdk := (conditionalDirectiveType l).2
   let r := l.drop nameLen
-  let addName : Option (Option Nat) → Option (Option Nat)
-    | none => none
-    | some none => some none
-    | some (some e) => some (some (nameLen + e))
-  match cdk with
-  | some .dIf => (some .dIf, addName (findDirectiveExprEnd trim fuel kind r))
-  | some .dElseif => (some .dElseif, addName (findDirectiveExprEnd trim fuel kind r))
-  | some c => (some c, addName (some (findBlockCommentEnd kind r)))
-  | none => (none, addName (some (findBlockCommentEnd kind r)))
+  if isExprDirective cdk then (cdk, shiftEnd nameLen (findDirectiveExprEnd trim fuel kind r))
+  else (cdk, shiftEnd nameLen (some (findBlockCommentEnd kind r)))
 
 /-- enough fuel for every call tree of `findDirectiveExprEnd` on `l` -/
 def directiveFuel (l : Bytes) : Nat := 2 * l.length + 2
